@@ -182,6 +182,58 @@ def functional_maps(nodes, max_edges):
     return res
 
 
+def subst_oracle(ops, kinds, srcs):
+    """abstract execution of the mock operations of one substitution; returns a failure description or None"""
+    n = len(kinds)
+    temps = {}
+    for i in range(n):
+        temps[2 * i] = ("ptr", i)
+        temps[2 * i + 1] = ("word", i)
+    erased = {}
+    shared = {}
+    saved = {}
+    for op in ops.split("|"):
+        f = op.split()
+        if not f or f[0] == "comment":
+            continue
+        if f[0] == "mov" and len(f) == 3:
+            temps[int(f[1])] = temps.get(int(f[2]), ("undef", int(f[2])))
+        elif f[0] == "save" and len(f) == 3:
+            saved[int(f[2])] = temps.get(int(f[1]), ("undef", int(f[1])))
+        elif f[0] == "restore" and len(f) == 3:
+            temps[int(f[1])] = saved.get(int(f[2]), ("undef-slot", int(f[2])))
+        elif f[0] == "erase" and len(f) == 2:
+            v = temps.get(int(f[1]))
+            erased[v] = erased.get(v, 0) + 1
+        elif f[0] == "share" and len(f) == 3:
+            v = temps.get(int(f[1]))
+            shared[v] = shared.get(v, 0) + int(f[2])
+        else:
+            return "unknown-op: " + op
+    for j, s_ in enumerate(srcs):
+        if temps.get(2 * j + 1) != ("word", s_):
+            return "wrong-assignment: new variable %d should hold old variable %d, its word temporary holds %s" % (j + 1, s_ + 1, temps.get(2 * j + 1))
+        if kinds[s_] != "e" and temps.get(2 * j) != ("ptr", s_):
+            return "wrong-assignment: new variable %d should hold object of old variable %d, its pointer temporary holds %s" % (j + 1, s_ + 1, temps.get(2 * j))
+    for i in range(n):
+        copies = sum(1 for s_ in srcs if s_ == i)
+        v = ("ptr", i)
+        if kinds[i] == "e":
+            if erased.get(v) or shared.get(v):
+                return "refcount: integer variable %d is erased/shared" % (i + 1)
+            continue
+        want_erase = 1 if copies == 0 else 0
+        want_share = max(0, copies - 1)
+        if erased.get(v, 0) != want_erase:
+            return "refcount: object of old variable %d (%d copies) released %d times, expected %d" % (i + 1, copies, erased.get(v, 0), want_erase)
+        if shared.get(v, 0) != want_share:
+            return "refcount: object of old variable %d (%d copies): count raised by %d, expected %d" % (i + 1, copies, shared.get(v, 0), want_share)
+    for v in list(erased) + list(shared):
+        if v is None or v[0] != "ptr":
+            return "refcount: erase/share of a temporary that holds %s" % (v,)
+    return None
+
+
 def main():
     chk = Check("C11", level="proof")
     chk.checker_cmd = "lake build Scc.Props.C11 sccmodel; lake env lean Scc/Audit/Audit_C11_C11.lean"
@@ -312,6 +364,15 @@ def main():
             if impl != mod:
                 chk.corr["disagreements"] += 1
                 chk.model_disagreements.append({"subst": mreq, "impl": impl, "model": mod})
+            # ORACLE on the REAL operation list (independent of the model): one simultaneous assignment, each
+            # object's count raised by its number of extra copies, each dropped object released exactly once
+            if line is not None:
+                bad = subst_oracle(impl, kinds, srcs)
+                if bad:
+                    chk.impl_oracle_failures.append({"subst": mreq, "ops": impl[:300], "what": bad})
+                    chk.violation("subst:mock:" + bad.split(":")[0], "substitution %s: %s (operations: %s)" % (mreq, bad, impl[:200]),
+                                  "subst_%s_%s.txt" % ("".join(kinds), "".join(str(x) for x in srcs)),
+                                  "substitution (old context -> new := old): %s\nemitted abstract operations:\n%s\nfailure: %s\nAxCut program:\n%s\n" % (mreq, impl.replace("|", "\n"), bad, prog))
         chk.sample({"substitution": mreq, "ops": mod})
         chk.sample({"backend": cases[len(cases) // 2][0], "moves": spec_of(cases[len(cases) // 2][1])})
         chk.sample({"backend": cases[-1][0], "moves": spec_of(cases[-1][1])})
